@@ -86,3 +86,63 @@ Fixpoint mismatches_c12 (_ : nat) (cs : list (nat * c12_case)) : list (nat * lis
                    | l => (i, l) :: mismatches_c12 0 t
                    end
   end.
+
+(** ** C10 *)
+Record c10_case : Type := mk_c10 {
+  q_table : table; q_filters : list filter; q_arrival : list (list nat); q_contents : list drow;
+  q_batched_stmts : list obs_event;     (* statements of the batched run, one per invocation *)
+  q_batched_rows : list (list nat);     (* per caller: positions (in q_contents) of the rows it received *)
+  q_single_stmts : list obs_event;      (* statements of the same queries without batching, per caller *)
+  q_single_rows : list (list nat)
+}.
+
+Fixpoint filter_idx {A : Type} (p : A -> bool) (l : list A) (i : nat) : list nat :=
+  match l with
+  | [] => []
+  | x :: t => if p x then i :: filter_idx p t (S i) else filter_idx p t (S i)
+  end.
+
+Definition batch_of (arrival : list (list nat)) (i : nat) : option (list nat) :=
+  find (fun b => existsb (Nat.eqb i) b) arrival.
+
+Definition model_batched_rows (t : table) (fs : list filter) (arrival : list (list nat)) (contents : list drow) (i : nat)
+  : list nat :=
+  match batch_of arrival i with
+  | None => []
+  | Some b =>
+      let w := batch_wclause t (map (nth_filter fs) b) in
+      filter_idx (fun r => is_tt (eval_wclause w r) && matcher_matches t (nth_filter fs i) r) contents 0
+  end.
+
+Fixpoint nat_lists_eqb (a b : list (list nat)) : bool :=
+  match a, b with
+  | [], [] => true
+  | x :: a', y :: b' => nat_list_eqb x y && nat_lists_eqb a' b'
+  | _, _ => false
+  end.
+
+(** Components: 1 = text / arguments of the combined statements, 2 = rows handed to each batched caller,
+    3 = text / arguments of the stand-alone statements, 4 = rows of the stand-alone queries (the fake
+    server's WHERE evaluation against the model's), 5 = the generated case is outside the theorems' domain
+    (column descriptors or table contents not representable: a harness defect). *)
+Definition c10_check (c : c10_case) : list nat :=
+  let t := q_table c in
+  let fs := q_filters c in
+  (if obs_list_eqb (map (fun b => obs_of_event (EStmt (batch_stmt t (map (nth_filter fs) b)))) (q_arrival c))
+                   (q_batched_stmts c) then [] else [1])
+  ++ (if nat_lists_eqb (map (model_batched_rows t fs (q_arrival c) (q_contents c)) (seq 0 (List.length fs)))
+                       (q_batched_rows c) then [] else [2])
+  ++ (if obs_list_eqb (map (fun f => obs_of_event (EStmt (SSelect (t_name t) (col_names t) (WSimple (dfilter_of t f)) None))) fs)
+                      (q_single_stmts c) then [] else [3])
+  ++ (if nat_lists_eqb (map (fun f => filter_idx (fun r => is_tt (eval_simple (dfilter_of t f) r)) (q_contents c) 0) fs)
+                       (q_single_rows c) then [] else [4])
+  ++ (if table_ok t && columns_ok t && forallb (row_representable t) (q_contents c) then [] else [5]).
+
+Fixpoint mismatches_c10 (_ : nat) (cs : list (nat * c10_case)) : list (nat * list nat) :=
+  match cs with
+  | [] => []
+  | (i, c) :: t => match c10_check c with
+                   | [] => mismatches_c10 0 t
+                   | l => (i, l) :: mismatches_c10 0 t
+                   end
+  end.
